@@ -406,6 +406,45 @@ func ruleStreamNeverSilent(c *Ctx) {
 			continue
 		}
 		if exprStr(r.Results[2]) == "true" {
+			// "do not resume" must be justified: the caller's context ended, the connection was closed by the client, the
+			// call's own response was just delivered, or the connection was failed on the way here
+			rv := g.VertexOf(r)
+			guards := g.GuardsAt(rv)
+			ctxP := ps.CtxParam()
+			doneF := c.Field(pM, "streamableClientConn", "done")
+			just := hasAtom(guards, func(a Atom) bool {
+				// ctx.Err() != nil
+				return AtomSaysNil(a, false, func(e ast.Expr) bool {
+					ce, ok := ast.Unparen(e).(*ast.CallExpr)
+					if !ok {
+						return false
+					}
+					sel, ok := ast.Unparen(ce.Fun).(*ast.SelectorExpr)
+					return ok && sel.Sel.Name == "Err" && ps.ObjOf(sel.X) == types.Object(ctxP)
+				})
+			})
+			// inside the `case <-c.done` arm
+			if cc, ok := ps.Enclosing(r, func(n ast.Node) bool { _, ok := n.(*ast.CommClause); return ok }).(*ast.CommClause); ok && cc.Comm != nil {
+				if ch, isSend := commChan(cc.Comm); ch != nil && !isSend && ps.IsField(ch, doneF) {
+					just = true
+				}
+			}
+			// the response of the call itself: guarded by jsonResp.ID == forCall.ID
+			if hasAtom(guards, func(a Atom) bool {
+				x, y, op, ok := binaryCmp(a.E)
+				return ok && op == token.EQL && a.Val && strings.HasSuffix(ps.FieldPath(x), ".ID") && strings.HasSuffix(ps.FieldPath(y), ".ID")
+			}) {
+				just = true
+			}
+			// c.fail(...) on every path from the branch that leads here
+			if !just {
+				for _, fv := range g.callVertices(failObj) {
+					if g.Dominates(fv, rv) {
+						just = true
+					}
+				}
+			}
+			c.Check(just, "processStream:return#"+itoa(i)+"-no-resume-is-justified", ps, r, "a return that tells handleSSE not to resume happens only when the caller's context ended, the client closed the connection, the call's response was delivered, or the connection was marked failed (guards: %s); otherwise the pending call is left without response and without error", atomsString(guards))
 			continue
 		}
 		nFalse++
@@ -514,4 +553,37 @@ func ruleStreamNeverSilent(c *Ctx) {
 		}
 		c.Check(byClient || unres || failed, "handleSSE:return#"+itoa(i), hs, r, "handleSSE stops only because the client closed, because the call was already failed as unresumable, or after marking the connection failed (unless the caller's ctx ended) (guards: %s)", atomsString(guards))
 	}
+	// the application/json twin: a body that cannot be read or decoded fails the connection (unless the caller is gone)
+	hj := c.Fn(pM, "streamableClientConn", "handleJSON")
+	jg := hj.Graph()
+	jctx := hj.CtxParam()
+	nj := 0
+	for i, r := range hj.Returns() {
+		rv := jg.VertexOf(r)
+		if r.Pos() == hj.Body.End()-1 {
+			continue // falling off the end after the hand-off select
+		}
+		nj++
+		ok := false
+		for _, fv := range jg.callVertices(failObj) {
+			if jg.Dominates(fv, rv) {
+				ok = true
+			}
+		}
+		if jctx != nil && hasAtom(jg.GuardsAt(rv), func(a Atom) bool {
+			return AtomSaysNil(a, false, func(e ast.Expr) bool {
+				ce, isC := ast.Unparen(e).(*ast.CallExpr)
+				if !isC {
+					return false
+				}
+				sel, isS := ast.Unparen(ce.Fun).(*ast.SelectorExpr)
+				return isS && sel.Sel.Name == "Err" && hj.ObjOf(sel.X) == types.Object(jctx)
+			})
+		}) {
+			ok = true
+		}
+		c.Check(ok, "handleJSON:return#"+itoa(i), hj, r, "an early return of handleJSON (unreadable or undecodable body) happens after c.fail, or because the caller's context ended: the call the body belonged to is never left pending")
+	}
+	c.Pin("handleJSON early returns", nj, 2)
+
 }
